@@ -88,7 +88,7 @@ def main():
             only = sys.argv[i + 1].split(',')
     args = [a for a in args if a not in (tier,) and (not only or a != ','.join(only))]
     ids = args or sorted(x for x in os.listdir(SEEDED) if os.path.isdir(os.path.join(SEEDED, x)))
-    path = os.path.join(SEEDED, 'RESULTS.json')
+    path = os.environ.get('SEEDED_RESULTS') or os.path.join(SEEDED, 'RESULTS.json')   # SEEDED_RESULTS: a side file for a parallel run
     results = json.load(open(path)) if os.path.exists(path) else {}
     for sid in ids:
         print(f'== {sid}', flush=True)
@@ -109,7 +109,8 @@ def main():
         ch = '; '.join(f"{c} [{r.get('tier', 'quick')}]: exit {v['exit']}, {v['violations']} VIOLATION lines ({v['wall_s']} s)" for c, v in r['checks'].items())
         lines.append(f"| {sid} | {r['property']} | {r['summary'][:160].replace('|', '/')} | {r['needs'][:160].replace('|', '/')} | {r['tests']} | {r['demo_clean']} / {r['demo_seeded']} | "
                      f"{'**caught**' if r['caught'] else '**MISSED**'}: {ch} |")
-    open(os.path.join(SEEDED, 'RESULTS.md'), 'w').write('\n'.join(lines) + '\n')
+    if not os.environ.get('SEEDED_RESULTS'):
+        open(os.path.join(SEEDED, 'RESULTS.md'), 'w').write('\n'.join(lines) + '\n')
     print('\n'.join(lines[-len(results):]))
 
 
